@@ -287,7 +287,8 @@ impl Context {
                         v_u.as_ref(),
                         property_name,
                     ) + parent_var_ptr),
-                    _ => panic!("Expected user defined type"),
+                    // the DIM of the record was jumped over
+                    _ => Err(RuntimeError::ElementNotDefined),
                 }
             }
         }
@@ -321,7 +322,8 @@ impl Context {
                     Variant::VUserDefined(v_u) => v_u
                         .get(property_name)
                         .ok_or(RuntimeError::ElementNotDefined),
-                    _ => panic!("Expected user defined type"),
+                    // the DIM of the record was jumped over
+                    _ => Err(RuntimeError::ElementNotDefined),
                 }
             }
         }
